@@ -25,6 +25,7 @@ using namespace XERCESC_NS;
 // defined in worker_core.cpp
 class RecMonitorFwd;
 InterpreterMonitor* newRecMonitor(JW* w, bool copyToInvokers, bool timestamps);
+void recMonitorSetMain(InterpreterMonitor* m, const std::string& session);
 void setMonitorMainSession(InterpreterMonitor* m, const std::string& s);
 
 static inline long long nowUs() {
@@ -308,6 +309,8 @@ static std::string cmdTimed(const std::vector<std::string>& a) {
 		ctl.armed = opts.count("arm") ? atoi(opts["arm"].c_str()) : 1;
 	}
 	std::string onPark = opts.count("onpark") ? opts["onpark"] : "";   // event to feed as soon as a thread is parked
+	long onParkDelayMs = opts.count("onparkdelay") ? atol(opts["onparkdelay"].c_str()) : 0;   // ... or that long after it was parked
+	long long parkedSince = 0;
 	struct Item { long ms; std::string what, arg; bool done; };
 	std::vector<Item> items;
 	for (auto& l : script) {
@@ -325,7 +328,13 @@ static std::string cmdTimed(const std::vector<std::string>& a) {
 		Interpreter* interp = new Interpreter(Interpreter::fromXML(xml, ""));
 		setupInterpreter(*interp, engine, &w, false, "");
 		InterpreterMonitor* mon = newRecMonitor(&w, opts.count("copymon") > 0, true);
+		recMonitorSetMain(mon, interp->getImpl()->getSessionId());
 		interp->addMonitor(mon);
+		if (opts.count("sched")) {
+			std::string sc = opts["sched"];
+			for (auto& c : sc) if (c == ',') c = ' ';
+			ctl.sched = parseInts(sc);
+		}
 		installCtl(&ctl);
 		bool finished = false;
 		while (!finished) {
@@ -342,7 +351,8 @@ static std::string cmdTimed(const std::vector<std::string>& a) {
 					else if (it.what == "cancel") interp->cancel();
 				}
 			}
-			if (!onPark.empty() && !fedOnPark && ctl.parked.load() > 0) {
+			if (!onPark.empty() && !fedOnPark && ctl.parked.load() > 0 && parkedSince == 0) parkedSince = nowUs();
+			if (!onPark.empty() && !fedOnPark && ctl.parked.load() > 0 && nowUs() - parkedSince >= onParkDelayMs * 1000) {
 				fedOnPark = true;
 				{
 					std::lock_guard<std::recursive_mutex> lock(g_recMutex);
